@@ -212,6 +212,39 @@ func H_C12_alias(t *verifrt.T) {
 // ---------------------------------------------------------------- C04: round trip
 
 func H_C04_roundtrip(t *verifrt.T) {
+	if t.Choice("type", 2) == 1 {
+		// tagged members: omitempty / string pointers, middle positions
+		v := &vtTags{S: plainString(t, "s", 1), BS: t.Choice("bs", 2) == 1, A: vtI16[t.Choice("a", 4)]}
+		if t.Choice("ps", 2) == 1 {
+			x := int8(smallInt(t, "psv"))
+			v.PS = &x
+		}
+		if t.Choice("po", 2) == 1 {
+			x := int8(t.Choice("pov", 2))
+			v.PO = &x
+		}
+		if t.Choice("last", 2) == 1 {
+			x := vtI16[1+t.Choice("lastv", 2)*2]
+			v.Last = &x
+		}
+		out, err := Marshal(v)
+		t.Assert("marshal-ok", err == nil)
+		var w vtTags
+		err = Unmarshal(out, &w)
+		t.Assert("unmarshal-ok", err == nil)
+		t.Assert("tagged-scalars", verifrt.And(w.S == v.S, w.BS == v.BS, w.A == v.A))
+		t.Assert("tagged-pointer-nilness", verifrt.And((w.PS == nil) == (v.PS == nil), (w.PO == nil) == (v.PO == nil), (w.Last == nil) == (v.Last == nil)))
+		if v.PS != nil && w.PS != nil {
+			t.Assert("tagged-pointer-values", *w.PS == *v.PS)
+		}
+		if v.PO != nil && w.PO != nil {
+			t.Assert("tagged-pointer-values", *w.PO == *v.PO)
+		}
+		if v.Last != nil && w.Last != nil {
+			t.Assert("tagged-pointer-values", *w.Last == *v.Last)
+		}
+		return
+	}
 	v := &vtScalars{I8: int8(smallInt(t, "i8")), U16: uint16(smallUint(t, "u16")), I64: smallInt(t, "i64"), B: t.Bool("b"),
 		S: symString(t, "s", 1), OB: t.Bool("ob")}
 	if t.Choice("ps", 2) == 1 {
